@@ -529,6 +529,23 @@ def doc_check(spec, g):
                 and r.name not in [x for x in use_helper.values()]:
             fail("alternatives", f"rule {r.name}: {len(nt_by_name[r.name]['prods'])} productions for "
                                  f"{pos_in_nt.get(r.name, 0)} alternatives")
+    # reachability flags: least set containing the start rule and closed under "symbols of its productions"
+    seen = set()
+    todo = [g["start"]]
+    while todo:
+        x = todo.pop()
+        if x in seen:
+            continue
+        seen.add(x)
+        if x >= g["nterms"]:
+            for p in g["nonterms"][x - g["nterms"]]["prods"]:
+                todo += [s for (s, _, _) in g["prods"][p]["rhs"]]
+    for i, t in enumerate(g["terms"]):
+        if t["reachable"] != (i in seen):
+            fail("reachable", f"terminal {t['name']} reachable flag is {t['reachable']}")
+    for i, n in enumerate(g["nonterms"]):
+        if n["reachable"] != ((g["nterms"] + i) in seen):
+            fail("reachable", f"nonterminal {n['name']} reachable flag is {n['reachable']}")
     # no EMPTY symbol inside a right-hand side
     for p in g["prods"]:
         if any(s == g["empty"] for (s, _, _) in p["rhs"]):
@@ -776,6 +793,8 @@ def gen_inline(rng):
         terms.append(TermRule(rng.choice(["Dup", "A0dup", "K00"]), ("S", used[0])))
     if rng.random() < 0.5:
         terms.append(TermRule("Num", ("R", "\\d+")))
+    if "a" in used and rng.random() < 0.5:   # a terminal NAMED like another terminal's string
+        terms.append(TermRule("a", ("S", "zz")))
     undeclared = rng.random() < 0.3
     rules = []
     nts = NTNAMES[:rng.randint(1, 2)]
